@@ -8,6 +8,27 @@ from checks import pipefam as pf
 PROPERTY = "C18"
 
 
+def conf_job(rxns):
+    from mc import pipeline
+
+    out = pipeline.run({"rxns": rxns, "threshold": 0})
+    return [(rx, r.get("confidence")) for rx, r in zip(rxns, out["rows"] or []) if r.get("solved_by") == "mcs-based"]
+
+
+def observed_confidences(rxns):
+    import math
+
+    from mc.pool import pmap
+
+    batches = [rxns[i:i + 5] for i in range(0, len(rxns), 5)]
+    got = [x for r in pmap("checks.c18:conf_job", batches, chunk=1) for x in r if isinstance(x[1], float)]
+    cs = sorted({c for _, c in got})
+    out = []
+    for c in cs:
+        out += [c, math.nextafter(c, 1.0)]
+    return [t for t in out if 0 <= t <= 1], [rx for rx, _ in got]
+
+
 def universes(tier):
     us = []
     special = pf.dedupe(pf.HAND + pf.SPECIAL)
@@ -24,6 +45,17 @@ def universes(tier):
                 us.pop()
     us.append(("hand+special single rows t=0.5", special, {"threshold": 0.5}, 1))
     us.append(("atomic H/O reagents", pf.dedupe(pf.PLACEHOLDERS), {}, 5))
+    # thresholds equal to (and just above) every confidence observed on the hand-built family
+    ts, mcs_rx = observed_confidences(special)
+    for t in ts:
+        us.append(("mcs-solved hand reactions t={!r}".format(t), mcs_rx, {"threshold": t}, 8))
+    # malformed rows are input rows too: every sequence of length 3 over valid and malformed values
+    import itertools
+
+    vals = ["CCO>>CC=O", "CC(=O)O.CCO>>CC(=O)OCC.O", "CC(=O)OCC>>CC(=O)O", "C(C)(>>CC", "CCO", "CC(C)(C)(C)(C)C>>CC"]
+    mixed = [x for seq in itertools.product(vals, repeat=3) for x in seq]
+    for bs in (None, 2):
+        us.append(("mixed malformed bs={}".format(bs), mixed, {"batch_size": bs}, 3))
     return us
 
 
@@ -33,7 +65,8 @@ def run(tier, seed):
     res.coverage["rule"] = (
         "every run (one rebalance call) over consecutive slices of the complete Rxn(A01,2) "
         "universe and of the hand-built/special families, thresholds {0,0.5,1} x batch sizes "
-        "{None,1,2,3} and single-row runs.  Non-trivial = distinct statistics dictionaries observed."
+        "{None,1,2,3}, single-row runs, thresholds equal to / just above every observed confidence, and every length-3 "
+        "sequence over 3 valid and 3 malformed rows.  Non-trivial = distinct statistics dictionaries observed."
     )
     res.coverage["samples"] = [us[0][1][:7], us[-1][1][:1]]
     res.assumptions = ["inputs are valid reactions (malformed rows are C05's)"]
